@@ -28,8 +28,8 @@ EXPLANATION = (
 RULE_TEXT = 'one obligation per (class, attribute) coverage pair, per identifier sink, per keyword pair, per falsy guard, per collection, plus the shared C13/C14 obligations'
 ASSUMPTIONS = ['byte-identical fixpoint, layout and indentation normalisation are not decided',
                'the DBML-expressible value domain is defined by the extracted reader tokens (DESIGN.md section 4)']
-ENGINES = ['pyindex', 'grammar', 'strctx', 'paths']
-TECHNIQUE = 'static analysis (ast): attribute-coverage over the local call closure, string-context analysis of templates against grammar-derived token classes, keyword agreement between renderer constants and grammar literals, guard normal forms'
+ENGINES = ['pyindex', 'grammar', 'strctx', 'paths', 'strval', 'specialise']
+TECHNIQUE = 'static analysis (ast): attribute-coverage over the local call closure, string-context analysis of templates against grammar-derived token classes, keyword agreement between renderer constants and grammar literals, guard normal forms; abstract string evaluation of every renderer against the statement form; bare-name pattern vs reader token per position'
 
 DBML = 'pydbml.renderer.dbml.'
 OWNER_LINKS = {'database', 'table', 'parent'}
